@@ -107,7 +107,14 @@ func modelValues(ex *Exec, o *Obl, d *replayDriver, timeout int) (vals map[strin
 		if perr != nil {
 			return nil, "", perr
 		}
-		c := ex.newCtx(fr, fr.entry, fr.entry, nil)
+		es := fr.entry
+		if o.lockSnap != nil {
+			// inputs may speak about the state at the Lock() the obligation's path went through
+			cp := *fr.entry
+			cp.lockSnap = o.lockSnap
+			es = &cp
+		}
+		c := ex.newCtx(fr, es, es, nil)
 		tv := c.eval(e)
 		tv = c.coerce(tv, nil)
 		s, ok := tv.V.(Sc)
